@@ -1,7 +1,8 @@
 (* C08 — pinned property theorems about the shared TransportService model (coq/Ts). This file
    contains statements, `exact`, and Print Assumptions only. *)
 From Coq Require Import List NArith Bool Sorted.
-From V.Ts Require Import Model Proofs Answers.
+From V.gen Require Consts.
+From V.Ts Require Import Model Proofs Answers Report ReportProofs.
 Import ListNotations.
 Open Scope N_scope.
 
@@ -127,6 +128,69 @@ Theorem C08_open_answered :
 Proof. exact open_answered. Qed.
 Print Assumptions C08_open_answered.
 
+(* ---- the reporting side of ProtocolSet (bounded per-protocol channels, Report.v) ----
+   For every history of reports and drains, every number of protocols and every capacity: per
+   protocol, what has been received, followed by what is queued, followed by what is still
+   waiting for room, is exactly the sequence of events of the started reports (result code
+   "completed" or "waiting") — nothing is dropped, duplicated or reordered; the queue never
+   exceeds the capacity. (All four report functions wait for room; none uses try_send.) *)
+Theorem C08_report_no_loss :
+  forall l nproto cap p ch,
+  nth_error (r_ch (rfinal (rinit nproto cap) l)) p = Some ch ->
+  got_all p l (rrun (rinit nproto cap) l) ++ rq ch ++ map snd (rw ch) =
+  sent_all p l (rrun (rinit nproto cap) l).
+Proof. exact delivered_prefix. Qed.
+Print Assumptions C08_report_no_loss.
+
+Theorem C08_report_channel_invariant :
+  forall l nproto cap, rinv (rfinal (rinit nproto cap) l).
+Proof. intros l nproto cap. apply rfinal_inv. apply rinit_inv. Qed.
+Print Assumptions C08_report_channel_invariant.
+
+(* delivered after finitely many drain steps: for every capacity >= 1, if after any history the
+   protocol receives one event at a time as many times as its backlog is long, it has received
+   exactly the events of all started reports, each once, in order *)
+Theorem C08_report_delivered :
+  forall rl nproto cap p,
+  (1 <= cap)%nat -> (p < nproto)%nat ->
+  let n := backlog_p (rfinal (rinit nproto cap) rl) p in
+  let rl' := rl ++ repeat (RDrain (N.of_nat p) 1) n in
+  got_all p rl' (rrun (rinit nproto cap) rl') = sent_all p rl (rrun (rinit nproto cap) rl).
+Proof. exact report_all_delivered. Qed.
+Print Assumptions C08_report_delivered.
+
+(* the production capacity (DEFAULT_CHANNEL_SIZE, regenerated from src/lib.rs on every run)
+   satisfies the hypothesis of the delivery theorem *)
+Theorem C08_report_default_capacity :
+  (1 <= N.to_nat V.gen.Consts.DEFAULT_CHANNEL_SIZE)%nat.
+Proof. apply PeanoNat.Nat.leb_le. vm_compute. reflexivity. Qed.
+Print Assumptions C08_report_default_capacity.
+
+(* composition with the service model: the events of protocol p's channel are the inputs of its
+   TransportService. If the answer event for an accepted open (SubstreamOpened{Outbound(id)} or
+   SubstreamOpenFailure{id}) reaches the service after the open — which C08_report_delivered
+   guarantees once the connection task has reported the outcome and the protocol keeps polling —
+   then the open is no longer in flight at the end of any continuation, and it is answered exactly
+   once, or ConnectionClosed for its connection was delivered; never twice. *)
+Theorem C08_answer_event_resolves :
+  forall tr1 dt a tr2 ka T n0 c id,
+  In (OCmd c id) (concat (run (init ka T n0) tr1)) ->
+  (exists m, a = ESubOut id m) \/ a = ESubFail id ->
+  pfind id (s_pend (final (init ka T n0) (tr1 ++ (dt, a) :: tr2))) = None.
+Proof. exact answer_event_resolves. Qed.
+Print Assumptions C08_answer_event_resolves.
+
+Theorem C08_open_answered_when_delivered :
+  forall tr1 dt a tr2 ka T n0 c id,
+  In (OCmd c id) (concat (run (init ka T n0) tr1)) ->
+  (exists m, a = ESubOut id m) \/ a = ESubFail id ->
+  let tr := tr1 ++ (dt, a) :: tr2 in
+  (count_occ N.eq_dec (ans_ids (concat (run (init ka T n0) tr))) id <= 1)%nat /\
+  (count_occ N.eq_dec (ans_ids (concat (run (init ka T n0) tr))) id = 1%nat \/
+   exists dt' p, In (dt', EClosed p c) tr).
+Proof. exact open_answered_delivered. Qed.
+Print Assumptions C08_open_answered_when_delivered.
+
 (* Without C06's "at most two connections per peer" the statement is false: with three, closing
    the ignored third drops the live secondary (secondary.take() on an unknown id), and the
    protocol is told "closed" while a connection is open and then handed a substream. *)
@@ -149,3 +213,12 @@ Example C08_nonvacuous :
   concat (run (init true 1000 0) tr) =
   [OEst 7; ORet 0 0; OCmd 1 0; ORet 0 1; OCmd 2 1; OSub 7 (Some 1); OClosed 7].
 Proof. vm_compute. split; reflexivity. Qed.
+
+(* non-vacuity of the report level: one protocol, capacity 1; the established event fills the
+   channel, the failure report waits, a drain lets it through, a second drain delivers it *)
+Example C08_report_nonvacuous :
+  let l := [REst 1; RSubFail 1 0 7; RDrain 0 1; RDrain 0 1] in
+  map o_code (rrun (rinit 1 1) l) = [0; 1; 0; 0] /\
+  map o_got (rrun (rinit 1 1) l) = [[]; []; [IEst 1]; [IFailure 1 7]] /\
+  map o_done (rrun (rinit 1 1) l) = [[]; []; [1]; []].
+Proof. vm_compute. repeat split; reflexivity. Qed.
